@@ -177,6 +177,12 @@ def run(M, rep, tier, only=None):
     from . import c01
     c01.shape_guard_table(M, rep, R4)
 
+    # ---------------- R5 (shared with C10.R7): a mixed value list is refused before the property exists
+    R5 = rep.rule("C12.R5", "create_property refuses a mixed value list before creating the property", floor=8,
+                  technique="decision-table extraction (two unrolled elements) evaluated on value lists (shared with C10.R7)")
+    from . import c10
+    c10.create_property_table(M, rep, R5)
+
     # ---------------- R3
     f = ctx.member("Block", "create_multi_tag")
     if f is None:
